@@ -54,6 +54,29 @@ def sk_sharedpre(U, v, L):
 graphs.SKELETONS["sharedpre"] = (sk_sharedpre, 0)
 
 
+def sk_cycpre(U, v, L):
+    """A pre-task that references the very node it is attached to (a cycle
+    through the pre-task), entered through the pre-task: instance() is called
+    on the pre-task itself. (Such a graph cannot be submitted - see DESIGN §8.3 -
+    but it can be instantiated directly.)"""
+    leaf = U.Leaf(i=v.int())
+    pre2 = U.Pre2(z=v.int(), leaf=leaf)
+    leaf.add_pretasks(pre2)
+    return graphs.G(pre2, [pre2, leaf], pre=[pre2])
+
+
+def sk_cycpre_owner(U, v, L):
+    """Same cycle entered through a holder of the owner"""
+    leaf = U.Leaf(i=v.int())
+    pre2 = U.Pre2(z=v.int(), leaf=leaf)
+    leaf.add_pretasks(pre2)
+    node = U.Node(child=leaf, x=v.int())
+    return graphs.G(node, [node, leaf, pre2], pre=[pre2])
+
+
+DIRECT_ONLY = {"cycpre": (sk_cycpre, 0), "cycpre_owner": (sk_cycpre_owner, 0)}
+
+
 def _reachable(root):
     """Reference: configurations reachable through parameter values"""
     from experimaestro.core.objects import Config
@@ -106,7 +129,11 @@ def direct(
     import xv.harness.c14_sealed  # noqa: F401  (registers the gentask skeleton)
 
     try:
-        g = graphs.build(SHARD["sk"], U, graphs.V([i0, i1, i2, i3, i4, i5, i6, i7], [c0, c1, c2, c3], [s0, s1, s2, s3, s4, s5, s6, s7]), SHARD.get("lens"))
+        v = graphs.V([i0, i1, i2, i3, i4, i5, i6, i7], [c0, c1, c2, c3], [s0, s1, s2, s3, s4, s5, s6, s7])
+        if SHARD["sk"] in DIRECT_ONLY:
+            g = DIRECT_ONLY[SHARD["sk"]][0](U, v, [])
+        else:
+            g = graphs.build(SHARD["sk"], U, v, SHARD.get("lens"))
     except graphs.Skip:
         return True
     # a first instantiation must not influence the second one
@@ -120,6 +147,10 @@ def direct(
         rt.note("FAIL: instance graph differs:", iso.why)
         ok = False
     reach = _reachable(g.root)
+    for n in g.nodes:
+        # nodes reached only through pre-task links
+        if not any(n is r for r in reach):
+            reach.append(n)
     # one instance per reachable configuration, each post-initialised once
     for c in reach:
         o = store.retrieve(id(c))
@@ -241,6 +272,8 @@ def conditions(tier):
             if sk in ("shared", "gentask", "sharedpre"):
                 shard["fixed_sels"] = [1] * 8
             conds.append({"name": f"direct/{sk}" + ("-" + "".join(map(str, lens)) if lens else ""), "func": "direct", "shard": shard, "timeout": tmo})
+    for sk in DIRECT_ONLY:
+        conds.append({"name": f"direct/{sk}", "func": "direct", "shard": {"sk": sk, "lens": [], "small_ints": 1}, "timeout": tmo})
     for sk in ("taskself", "taskout", "tasklist", "pretask", "gentask", "sharedpre"):
         shard = {"sk": sk, "lens": [], "small_ints": 1, "fixed_sels": [1] * 8}
         conds.append({"name": f"params/{sk}", "func": "via_params", "shard": shard, "timeout": tmo})
